@@ -16,6 +16,9 @@ CHECKS = {
  "C10": dict(level="model_checking", design="5/C10",
    technique="z3 regex-theory language inclusion (unbounded length) between the compiled patterns' translated parse trees and the ABNF, plus bounded symbolic execution of the real call sites",
    text="LANG: for each of the five gates the compiled pattern object waitress uses is translated from its sre parse tree (python semantics of ^ $ \\Z, method read from the call site AST) and z3 decides both inclusions against the independently written ABNF under the stated call-site precondition language - all lengths. SITE: all byte strings up to 4 (quick) / 6 (thorough) bytes at each gate go through the real parser/receiver and are compared with the RFC reference, which checks the precondition languages, the SP/HTAB-only stripping and the numeric conversion."),
+ "C06": dict(level="model_checking", design="5/C06",
+   technique="per-path symbolic execution of the real parser/receiver/channel/task code with the stream bytes, both size limits (z3 integers) and a read cut symbolic; z3 decides agreement with the RFC reference incl. the 431/413 rules, single error response, close and no further consumption",
+   text="Both size limits are symbolic integers in [1, 4096], so every relation between a limit and each length the code compares it with is decided by linear arithmetic rather than sampled; crossed with 1-byte windows at every position of 8 skeletons, unterminated heads, all short byte strings in each chunked-decoder phase, digit runs around the 4300-digit conversion limit, and a symbolic read cut. Asserted per path: no exception leaves received()/service(), the refusal status the reference demands (convention-tolerant at the accounting edge), exactly one well-formed error response carrying Connection: close, connection closing, and a closing connection that parses nothing, calls nothing, sends nothing and is not readable."),
 }
 NA = {}
 checks = []
